@@ -34,8 +34,19 @@ func restartScenario(sc Scenario, dir string) ([]verif.Event, *RunResult) {
 			defer li.l.Exit()
 		}
 	}
+	drainedRun := forcedVariant == "" && rand.New(rand.NewSource(sc.Seed*11+7)).Intn(4) == 0
+	if drainedRun && r.sc.MemQ > 3 {
+		r.sc.MemQ = 2 // so that the channels' disk queues are involved
+	}
+	syncEvery := int64(2 + rand.New(rand.NewSource(sc.Seed*19+3)).Intn(9))
 	opts := func(o *nsqd.Options) {
 		r.nodeOpts(o)
+		if drainedRun {
+			// the disk queues write their positions down every few operations and not on a timer: at the shutdown the
+			// last note is, as a rule, a few reads old
+			o.SyncEvery = syncEvery
+			o.SyncTimeout = 10 * time.Second
+		}
 		if lkd != nil {
 			o.NSQLookupdTCPAddresses = []string{lkd.tcp}
 		}
@@ -61,6 +72,15 @@ func restartScenario(sc Scenario, dir string) ([]verif.Event, *RunResult) {
 	if forcedVariant == "genstall" {
 		fanoutRun, delpark, genstall = false, false, true
 	}
+	// ... or (a quarter of all runs) only after everything has been consumed and finished: prompt consumers, nothing paused, the
+	// shutdown comes right after the last FIN -- whatever went through a channel's disk queue has just been read from it,
+	// and none of it may come back after the restart
+	if drainedRun {
+		fanoutRun, delpark, genstall = false, false, false
+		res.Scenario += " drained-before-exit"
+	}
+	// the channel-less topic is paused in a third of the runs: it comes back paused, with its backlog
+	lonelyPaused := rand.New(rand.NewSource(sc.Seed*17+1)).Intn(3) == 0
 	if genstall {
 		res.Scenario += " generator-stalled"
 	}
@@ -75,12 +95,12 @@ func restartScenario(sc Scenario, dir string) ([]verif.Event, *RunResult) {
 		r.httpAdmin("/topic/create?topic=" + t)
 		for _, c := range sc.Channels[t] {
 			r.httpAdmin("/channel/create?topic=" + t + "&channel=" + c)
-			if r.rng.Intn(4) == 0 {
+			if r.rng.Intn(4) == 0 && !drainedRun {
 				r.httpAdmin("/channel/pause?topic=" + t + "&channel=" + c)
 				pausedC[t+"/"+c] = true
 			}
 		}
-		if r.rng.Intn(5) == 0 || ((fanoutRun || delpark) && t == sc.Topics[0]) {
+		if (r.rng.Intn(5) == 0 && !drainedRun) || ((fanoutRun || delpark) && t == sc.Topics[0]) {
 			r.httpAdmin("/topic/pause?topic=" + t)
 			pausedT[t] = true
 		}
@@ -97,10 +117,18 @@ func restartScenario(sc Scenario, dir string) ([]verif.Event, *RunResult) {
 			r.markAcked([]*pubRec{rec})
 		}
 	}
+	if lonelyPaused {
+		r.httpAdmin("/topic/pause?topic=lonely")
+		pausedT["lonely"] = true
+	}
 	for _, t := range sc.Topics {
 		for _, c := range sc.Channels[t] {
 			for i := 0; i < sc.ConsPerChan; i++ {
-				if _, err := r.newConsumer(t, c, personalities("core", r.rng), int64(1+r.rng.Intn(3))); err != nil {
+				pers := personalities("core", r.rng)
+				if drainedRun {
+					pers = 0
+				}
+				if _, err := r.newConsumer(t, c, pers, int64(1+r.rng.Intn(3))); err != nil {
 					res.Inconclusive = "consumer: " + err.Error()
 					nd.stop(30 * time.Second)
 					return finish(), res
@@ -130,7 +158,7 @@ func restartScenario(sc Scenario, dir string) ([]verif.Event, *RunResult) {
 	var cmu sync.Mutex
 	churnStop := make(chan struct{})
 	churnDone := make(chan struct{})
-	burst := r.rng.Intn(2) == 0
+	burst := r.rng.Intn(2) == 0 && !drainedRun
 	go func() {
 		defer close(churnDone)
 		if !burst {
@@ -165,7 +193,28 @@ func restartScenario(sc Scenario, dir string) ([]verif.Event, *RunResult) {
 		fanout = sc.Topics[0]
 	}
 	// shutdown either in the middle of publishing or some time after it
-	if r.rng.Intn(2) == 0 || genstall {
+	if drainedRun {
+		select {
+		case <-pubDone:
+		case <-time.After(60 * time.Second):
+		}
+		for i := 0; i < 1500; i++ {
+			st, _, err := nd.stats("")
+			if err != nil {
+				break
+			}
+			left := int64(0)
+			for _, ts := range st.Topics {
+				for _, cs := range ts.Channels {
+					left += ts.Depth + cs.Depth + cs.InFlightCount + cs.DeferredCount
+				}
+			}
+			if left == 0 {
+				break
+			}
+			time.Sleep(20 * time.Millisecond)
+		}
+	} else if r.rng.Intn(2) == 0 || genstall {
 		time.Sleep(time.Duration(5+r.rng.Intn(60)) * time.Millisecond)
 	} else {
 		select {
